@@ -77,6 +77,12 @@ check("C16",
       "and judges every recorded call of the real functions with inputs re-read after the call.",
       "Trusted: TLC; abstract values {v1,v2,list,null} concretised to str/list/None; small-scope hypothesis.",
       "TLA+ relational spec + TLC model checking of the algorithm transcription + TLC validation of recorded I/O", "DESIGN.md §6 C16")
+check("C19",
+      "spec/AwClassify.tla states rule matching (non-empty literal regex found in a selected string value, case-insensitively if asked), categorize (deepest match, later rule wins ties, Uncategorized), "
+      "tag (matching tags in rule order) and the frame relation (count, order, timestamps, durations, unrelated keys unchanged); TLC checks transcriptions of Rule.match and the reduce fold against them "
+      "(and refutes the '>' tie-break), and judges every recorded call of categorize, tag, split_url_events and simplify_string.",
+      "Trusted: TLC; the regex engine, urlparse and the title regexes are not modelled (regex = one literal word; only the frame relation is decided for split_url_events / simplify_string).",
+      "TLA+ relational spec + TLC model checking of the algorithm transcription + TLC validation of recorded I/O", "DESIGN.md §6 C19")
 
 
 def build():
